@@ -605,3 +605,62 @@ try:
     CONTRACTS = build_contracts()
 except OSError:
     CONTRACTS = []
+
+
+# ------------------------------------------------------------------ error callback and entry point (C11, C12)
+from pyvc.models import components as _CM
+from pyvc.interp import PyRaise as _PyRaise
+
+
+def _yacc_parse(it, comp, args, kwargs, line):
+    """PLY's parser.parse under contract: returns the start symbol's value, None after an unrecovered error, or
+    lets a package error raised by a token rule / p_error through.  The lexer object is used (dirty) afterwards."""
+    ctx = it.ctx
+    ctx.ghost['lexer_dirty'] = True
+    ctx.ghost['parse_calls'] = ctx.ghost.get('parse_calls', 0) + 1
+    d = ctx.choose(3, 'yacc.parse@%s' % line)
+    if d == 0:
+        # the start symbol's value (value type of mibFile, see TYPES) or None after an unrecovered syntax error
+        a = it.fresh_any('ast')
+        ctx.assume(z3.Or(PV.is_PNone(a.t), pred(TYPES['mibFile'], a.t, ctx)))
+        return a
+    _CM.raise_pkg(it, 'PySmiLexerError' if d == 1 else 'PySmiParserError', line, lineno=it.fresh_int('lineno'))
+
+
+def _lexer_reset(it, comp, args, kwargs, line):
+    it.ctx.ghost['lexer_dirty'] = False
+    it.ctx.ghost['resets'] = it.ctx.ghost.get('resets', 0) + 1
+    return None
+
+
+def _parse_setup(it, env):
+    it.world.comp_models[('yacc', 'parse')] = _yacc_parse
+    it.world.comp_models[('lexerwrap', 'reset')] = _lexer_reset
+    it.ctx.ghost['lexer_dirty'] = False
+    it.ctx.ghost['resets'] = 0
+    it.ctx.ghost['parse_calls'] = 0
+
+
+from pyvc import pybuiltins as _B3
+_B3.SPEC_FUNCS['ghostv'] = lambda it, args, kwargs: it.ctx.ghost.get(args[0])
+
+CONTRACTS += [
+    Contract(id='parser.p_error', file=FILE, func='SmiV2Parser.p_error', serves=['C11'],
+             params={'self': Obj('SmiV2Parser'), 'p': NoneT},
+             cases=[('token', {'params': {'p': Obj('LexToken', type=Str, value=Any, lineno=Int)}}),
+                    ('end-of-input', {'params': {'p': NoneT}})],
+             ensures={'syntax_error_is_always_raised': 'raised and is_exc(exc, "PySmiParserError")',
+                      'located_at_the_offending_token': 'implies(p is not None, raised and exc.lineno == p.lineno)'},
+             raises={'PySmiParserError': True}),
+    Contract(id='parser.parse', file=FILE, func='SmiV2Parser.parse', serves=['C11', 'C12', 'C02'],
+             params={'self': Obj('SmiV2Parser', parser=Comp('yacc'), lexer=Comp('lexerwrap', lexer=Any)), 'data': Str,
+                     'kwargs': Rec()},
+             setup=_parse_setup, inline=['SmiV2Parser.reset'],
+             ensures={
+                 # C12: whatever happens, the next parse starts with a fresh lexer
+                 'lexer_reset_on_every_exit': 'ghostv("lexer_dirty") == False',
+                 'parsed_once': 'ghostv("parse_calls") == 1',
+                 'modules_or_empty': 'implies(not raised, is_list(result) or is_tuple(result) or truthy(result) or result == [])',
+             },
+             raises={'PySmiLexerError': True}),
+]
